@@ -119,6 +119,19 @@ func checkCompactionAtomic(p *Program, r *Result, rule string) {
 					}
 				}
 				if tn == ro.qType && f == ro.qField {
+					// append(queue[:0], unread...): moves the unread entries to the front and shortens in one
+					if ap, ok := x.Val.(*ssa.Call); ok {
+						if b, ok := ap.Call.Value.(*ssa.Builtin); ok && b.Name() == "append" && len(ap.Call.Args) == 2 {
+							if sl, ok := ap.Call.Args[0].(*ssa.Slice); ok && ro.isQueueLoad(sl.X) && sl.Low == nil && sl.High != nil {
+								if k, ok := sl.High.(*ssa.Const); ok && k.Value != nil && k.Int64() == 0 {
+									if s2, ok := ap.Call.Args[1].(*ssa.Slice); ok && ro.isQueueLoad(s2.X) {
+										pt := get(x.Block(), in)
+										pt.copyIn, pt.shorten = true, true
+									}
+								}
+							}
+						}
+					}
 					if sl, ok := x.Val.(*ssa.Slice); ok && ro.isQueueLoad(sl.X) && sl.Low == nil && sl.High != nil {
 						if k, ok := sl.High.(*ssa.Const); ok && k.Value != nil && k.Int64() == 0 {
 							get(x.Block(), in).clear = true
@@ -130,6 +143,8 @@ func checkCompactionAtomic(p *Program, r *Result, rule string) {
 			case *ssa.Call:
 				if b, ok := x.Call.Value.(*ssa.Builtin); ok && b.Name() == "copy" && len(x.Call.Args) == 2 {
 					if sl, ok := x.Call.Args[0].(*ssa.Slice); ok && ro.isQueueLoad(sl.X) {
+						get(x.Block(), in).copyIn = true
+					} else if ro.isQueueLoad(x.Call.Args[0]) {
 						get(x.Block(), in).copyIn = true
 					}
 				}
